@@ -480,7 +480,9 @@ func (option *Option) isFunc() bool {
 func (option *Option) call(value *string) error {
 	var retval []reflect.Value
 
-	if value == nil {
+	if value == nil || option.value.Type().NumIn() == 0 {
+		// A callback without parameters has nowhere to put a value (which
+		// an environment variable or an ini entry may supply)
 		retval = option.value.Call(nil)
 	} else {
 		tp := option.value.Type().In(0)
